@@ -520,7 +520,9 @@ static void Table_Rem(var self, var key) {
 static var Table_Get(var self, var key) {
   struct Table* t = self;
   
-  if (key >= t->data and ((char*)key) < ((char*)t->data) + t->nslots * Table_Step(self)) {
+  /* one of the table's own key objects (a value object is looked up like any other key) */
+  if (key >= t->data and ((char*)key) < ((char*)t->data) + t->nslots * Table_Step(self)
+  and (((char*)key) - ((char*)t->data)) % Table_Step(self) is sizeof(uint64_t) + sizeof(struct Header)) {
     return Table_Val(self, (((char*)key) - ((char*)t->data)) / Table_Step(self));
   }
   
